@@ -464,12 +464,16 @@ func queryPost(e *Engine, ev *RunEvidence) []Found {
 		wg.Add(1)
 		go func() {
 			defer wg.Done()
+			rig := NewRig(e.Sc.Rig) // a keeper of its own per worker
 			for id := range ch {
 				n := e.nodes[id]
 				if n.st == nil {
 					continue
 				}
-				vs, wt := queryState(e.rig, e.Sc, n.st)
+				if rig.Dirty() {
+					rig = NewRig(e.Sc.Rig)
+				}
+				vs, wt := queryState(rig, e.Sc, n.st)
 				mu.Lock()
 				wit["C17:states-queried"]++
 				for k, v := range wt {
